@@ -234,7 +234,8 @@ def _judge(ctx, key, s, rec, N, freq, gl, al, ml, deg, nmag, refs, given=None):
 
     cands = [Z for Z in rec.draws if Z.shape == (N, 3)]
     if not cands:
-        ctx.caps.append('no (N,3) standard_normal draw observed: reported-noise identities not judged')
+        if not ctx.caps:
+            ctx.caps.append('no (N,3) standard_normal draw observed: reported-noise identities not judged')
         cands = [np.zeros((N, 3))]
     sig_a, sig_m = getattr(s, 'acc_noise', None), getattr(s, 'mag_noise', None)
     sig_g = getattr(s, 'gyr_noise', None)
